@@ -84,10 +84,17 @@ def variations(cls, target, quick):
         return out + [dict(DEFAULT, **v) for v in one_at_a_time]
     out = []
     for pre in (False, True):
-        for clear, disk in ((False, False), (True, True), (True, False)):
+        for clear, disk in ((False, False), (True, True)):
             for cc in ((True,) if data else (True, False)):
                 for m, enr in masks:
+                    if pre and enr == "notext":
+                        continue  # the enrichment without text children is a variant of the as-created source only
                     out.append(dict(DEFAULT, cc=cc, clear=clear, disk=disk, mask=m, enrich=enr, pre=pre))
+    # clear_cache on in-memory files (the library then clears nothing): one option changed at a time
+    out.append(dict(DEFAULT, clear=True))
+    out.append(dict(DEFAULT, clear=True, pre=True))
+    if not data:
+        out.append(dict(DEFAULT, clear=True, cc=False))
     out.sort(key=lambda o: sum(o[k] != DEFAULT[k] for k in DEFAULT))
     return out
 
@@ -208,7 +215,8 @@ def run(ctx):  # noqa: C901  pylint: disable=too-many-locals,too-many-branches,t
         bound=(
             "every concrete class x its targets x "
             + ("{default options; one option changed at a time for targets same / other (plain group classes: default and copy_children=False only)}"
-               if ctx.quick else "{copy_children} x {clear_cache off, on with disk files, on with in-memory files} x {mask none, all, part (with and without text children)} x {as created, re-loaded}")
+               if ctx.quick else "{copy_children} x {clear_cache off, on with disk files} x {mask none, all, part; as-created sources also without text children} x {as created, re-loaded}, "
+               "plus clear_cache on in-memory files with default / re-loaded / copy_children=False")
             + "; edits: targets same / other, default options, "
             + ("one sequence of all in-place edits and the first domain value of every settable attribute" if ctx.quick
                else "every edit alone (all domain values) plus sequences as created / re-loaded / clear_cache on disk")
